@@ -44,6 +44,9 @@ type c17Case struct {
 	// RaceOnExpiry: when the expiry scan is about to delete the index record of an Event, a client update of that
 	// Event lands first (between the scan's snapshot and its delete)
 	RaceOnExpiry bool `json:"race_on_expiry,omitempty"`
+	// FailIndexDelete: the engine fails (plain error, nothing applied) the scan's first delete of a live Event's
+	// index record; whatever the scan does next, the Event stays whole or goes whole
+	FailIndexDelete bool `json:"fail_index_delete,omitempty"`
 }
 
 func genC17(t *rapid.T) interface{} {
@@ -84,6 +87,9 @@ func genC17(t *rapid.T) interface{} {
 	// end with two marks, usually more than a TTL apart, with a fresh change of one Event key in between:
 	// the untouched Event may expire, the touched one must survive
 	c.RaceOnExpiry = DrawBool(t, 25, "raceOnExpiry")
+	if !c.RaceOnExpiry {
+		c.FailIndexDelete = DrawBool(t, 30, "failIndexDelete")
+	}
 	c.Steps = append(c.Steps, c17Step{Mark: true, Pause: rapid.SampledFrom([]int{0, 10}).Draw(t, "p1")})
 	if DrawBool(t, 75, "touch") {
 		c.Steps = append(c.Steps, c17Step{Pause: rapid.SampledFrom([]int{20, 45, 60}).Draw(t, "p2"), W: &WOp{Kind: rapid.SampledFrom([]string{"update", "update", "create"}).Draw(t, "tk"), K: DrawIntn(t, 2, "tkey"), Exp: "ok"}})
@@ -157,11 +163,12 @@ func runC17(ci interface{}, st *CaseStats) error {
 	lastChange := map[string]time.Time{} // taken BEFORE the write call: measured age over-estimates true age
 	expired := map[string]bool{}
 	raceArmed := c.RaceOnExpiry
+	failArmed := c.FailIndexDelete
 	var raceErr error
 	raced := false
 	if env.Shim != nil {
 		env.Shim.OnDelete = func(idx int, key []byte, current bool) Decision {
-			if !raceArmed || len(key) < 13 {
+			if (!raceArmed && !failArmed) || len(key) < 13 {
 				return Pass
 			}
 			uk, rev, derr := shimCoder.Decode(key)
@@ -170,6 +177,11 @@ func runC17(ci interface{}, st *CaseStats) error {
 			}
 			if _, live := env.M.Live(string(uk)); !live {
 				return Pass
+			}
+			if failArmed {
+				failArmed = false
+				st.Label("index-delete-of-expired-event-failed")
+				return FailNoApply
 			}
 			// the scan is about to remove the index record of an expired Event: a client updates the Event now
 			raceArmed = false
